@@ -254,3 +254,37 @@ class SimTerm:
         finally:
             termios.tcsetattr(fd, termios.TCSANOW, old)
             self.drain_master()  # echo of nothing; keep the master clean
+
+
+class RealTimeDriver:
+    """Drives the scripted terminal in real time (a thread polling the master): used to cross-check
+    that the virtual-clock simulation and the real kernel/select path agree."""
+
+    def __init__(self, term: SimTerm):
+        import threading
+
+        self.term = term
+        self._stop = threading.Event()
+        self._thread = threading.Thread(target=self._loop, daemon=True)
+
+    def _loop(self):
+        import time
+
+        t = self.term
+        while not self._stop.is_set():
+            t.now = time.monotonic()
+            t._handle_requests()
+            t._deliver_due(t.now)
+            time.sleep(0.0005)
+
+    def __enter__(self):
+        import time
+
+        self.term.now = time.monotonic()
+        self.term._last_due = self.term.now
+        self._thread.start()
+        return self
+
+    def __exit__(self, *a):
+        self._stop.set()
+        self._thread.join(5)
